@@ -254,6 +254,57 @@ pub fn run(ctx: &RunCtx) -> i32 {
         noop_requests(&routes, r, &rt, &mut g, per);
     });
     total.merge(rep);
+    // (b2) hand-built requests for the bucket- and object-level basics, in both addressing styles, as HTTP/1.1 (Host header)
+    // and as HTTP/2 (no Host header, the host - with its port - in the authority of the target), under host parsers whose
+    // base domains have and have no port: the path kind, and with it the operation, must not shift
+    {
+        let ops: &[(&str, &str, &str, &str)] = &[
+            // (operation, method, path-style target after the bucket, virtual-hosted target)
+            ("ListObjects", "GET", "", "/"), ("CreateBucket", "PUT", "", "/"), ("DeleteBucket", "DELETE", "", "/"), ("HeadBucket", "HEAD", "", "/"), ("ListObjectsV2", "GET", "?list-type=2", "/?list-type=2"),
+            ("GetBucketTagging", "GET", "?tagging", "/?tagging"), ("GetObject", "GET", "/dir/key", "/dir/key"), ("PutObject", "PUT", "/dir/key", "/dir/key"), ("DeleteObject", "DELETE", "/dir/key", "/dir/key"),
+            ("HeadObject", "HEAD", "/dir/key", "/dir/key"), ("GetObjectTagging", "GET", "/k?tagging", "/k?tagging"), ("ListMultipartUploads", "GET", "?uploads", "/?uploads"),
+        ];
+        let cfgs: Vec<(&str, HostCfg, &str)> = vec![
+            ("single-with-port", HostCfg::Single("s3.verif.example:9000".into()), "s3.verif.example:9000"),
+            ("single", HostCfg::Single("s3.verif.example".into()), "s3.verif.example"),
+            ("multi-with-ports", HostCfg::Multi(vec!["other.example".into(), "s3.verif.example:9000".into(), "localhost:8014".into()]), "localhost:8014"),
+            ("no-parser", HostCfg::None, "s3.verif.example:9000"),
+        ];
+        let rt = new_runtime();
+        for (cname, hc, domain) in &cfgs {
+            for (op, method, ptail, vtarget) in ops {
+                for vhost in [false, true] {
+                    if vhost && *hc == HostCfg::None {
+                        continue;
+                    }
+                    for h2 in [false, true] {
+                        let (target, host) = if vhost { ((*vtarget).to_owned(), format!("basics-bucket.{domain}")) } else { (format!("/basics-bucket{ptail}"), (*domain).to_owned()) };
+                        let mut req = RawRequest::new(method, &target).header("host", &host);
+                        if *method == "PUT" && ptail.contains("key") {
+                            req.body = b"x".to_vec();
+                            req.headers.push(("content-length".into(), b"1".to_vec()));
+                        }
+                        if h2 {
+                            crate::oracle::sig::to_http2(&mut req);
+                        }
+                        let (out, events) = run_once(&rt, &SvcCfg { host: hc.clone(), ..Default::default() }, None, &req);
+                        let b = backend_events(&events);
+                        // ListBuckets is what the root denotes: a request whose bucket was lost ends there or in an object operation
+                        let got: Vec<&str> = b.iter().map(|x| x.op).collect();
+                        if got == [*op] {
+                            total.held(format!("basics/{cname}/{}/{}/{op}", if vhost { "vhost" } else { "path" }, if h2 { "h2" } else { "h1" }));
+                        } else {
+                            let kind = if got.is_empty() { "not-dispatched".to_owned() } else { format!("diverted-to/{}", got[0]) };
+                            total.violated(
+                                format!("C01/{op}/{kind}/{}", if h2 { "http2-authority" } else { "http1-host" }),
+                                json!({"kind": "basics", "configuration": cname, "style": if vhost { "vhost" } else { "path" }, "request": req.to_json(), "request_raw": req, "host_cfg": hc, "backend": got, "outcome": out.to_json()}),
+                            );
+                        }
+                    }
+                }
+            }
+        }
+    }
     // (c) the one operation that is not in the model: a browser-style POST form on a bucket denotes an object write
     // (ops/mod.rs special case).  Valid signed forms, with and without the CRLF preamble, with part headers in either
     // order, fields after the file, in one frame or several - exactly one put_object, nothing else.
@@ -314,6 +365,18 @@ pub fn replay(v: &Value) -> i32 {
                 r.violated("C01/no-operation/replayed", json!({"outcome": out.to_json()}));
             } else {
                 r.held("replay");
+            }
+        }
+        "basics" => {
+            let req: RawRequest = serde_json::from_value(w["request_raw"].clone()).unwrap_or_else(|e| harness_error(&format!("bad request: {e}")));
+            let hc: HostCfg = serde_json::from_value(w["host_cfg"].clone()).unwrap_or_else(|e| harness_error(&format!("bad host cfg: {e}")));
+            let (out, events) = run_once(&rt, &SvcCfg { host: hc, ..Default::default() }, None, &req);
+            let got: Vec<&str> = backend_events(&events).iter().map(|x| x.op).collect();
+            let want = v["signature"].as_str().unwrap_or("").split('/').nth(1).unwrap_or("").to_owned();
+            if got == [want.as_str()] {
+                r.held("replay");
+            } else {
+                r.violated("C01/basics/replayed", json!({"backend": got, "outcome": out.to_json()}));
             }
         }
         "post-form" => {
